@@ -3642,7 +3642,10 @@ private:
 
     basic_block_t &cur = get_node(curId);
 
-    if (has_one_child(curId) && has_one_parent(curId)) {
+    // The entry block is never folded into its parent (it can have one
+    // if it is a loop head or if it has an unreachable predecessor)
+    // because the entry block cannot be removed.
+    if (curId != entry() && has_one_child(curId) && has_one_parent(curId)) {
       basic_block_t &parent = get_parent(curId);
       basic_block_t &child = get_child(curId);
 
